@@ -293,7 +293,7 @@ func (app *App) addPrefixToRoute(prefix string, route *Route) *Route {
 	// Same shortcuts as register: only a sub-app route mounted at "/" can still be the root or
 	// the catch-all route, every other prefixed path is neither.
 	route.root = route.path == "/"
-	route.star = route.path == "/*"
+	route.star = prettyPath == "/*"
 
 	return route
 }
@@ -362,7 +362,8 @@ func (app *App) register(methods []string, pathRaw string, group *Group, handler
 		}
 
 		isUse := method == methodUse
-		isStar := pathClean == "/*"
+		// the catch-all shortcut is for the wildcard pattern only, not for an escaped, literal "/\*"
+		isStar := pathPretty == "/*"
 		isRoot := pathClean == "/"
 
 		route := Route{
